@@ -1,78 +1,875 @@
-// probe
+//! C20 correspondence harness: several REAL leptos server renders in progress at once on one thread.
+//!
+//! Real stack exercised: `leptos_integration_utils::build_response` (bin `c20`, feature `sandbox`; in bin
+//! `c20g` = global arena, its lines are reproduced below because that crate forces `sandboxed-arenas` on),
+//! `Owner::new_root` + `SsrSharedContext` per request, `RenderHtml::to_html_stream_in_order/_out_of_order`,
+//! `StreamBuilder::poll_next`, tachys `Suspend` / `OwnedView`, leptos `Suspense`, `Provider`, `For`,
+//! `leptos_server::Resource` (+ `ArcAsyncDerived` task, `ScopedFuture`, `Sandboxed`), `on_cleanup`,
+//! `use_context`, `RwSignal` (arena item), `SharedContext::next_id`, `pending_data`.
+//! Spawned tasks run on `hx_common::sched`; streams are polled by hand with a no-op waker; async gates are
+//! `oneshot`s completed by `fire` ops.
+//!
+//! Op grammar (one scheduling action per line):
+//!   case <name>
+//!   req <r> <io|ooo> <P>   declare request r (r = 0,1,2 in order) with stream mode and view program P
+//!   start <r>              build_response + poll its future once (runs the component bodies, yields the stream)
+//!   fire <r> <g>           complete gate g of request r
+//!   ps <r>                 poll r's stream until it ends or returns Pending 8 times in a row
+//!   poll <i>               poll the (i mod len)-th entry of the executor's ready list
+//!   drop <r>               drive r alone to completion (its stream ends with `owner.unset()`, as in `from_app`), drop the stream
+//!   end                    `drop` every remaining started request in ascending order; print observation + verdict
+//! P (no spaces):  L<id> reactive leaf closure | E<id> eager leaf (component body) | C<id> on_cleanup leaf |
+//!   V<k>(P) Provider scope k | S<g>.<pre>.<post>(P) Suspend: pre, await gate g, post, then build P |
+//!   U(P) Suspense | R<g>.<fetch>.<read> Resource (fetcher awaits g, reports) read through Suspend |
+//!   F<n>.<id> For over 0..n | Q(P,P,..) fragment
+//! Every leaf reports `(program's request, leaf id, Tag seen via use_context, per-request signal value,
+//! next SerializedDataId of the current shared context)`, into the HTML and into a log.
+//! Output of every op except `end`: `ok` (or `bad-op`).  Output of `end`:
+//!   `r0:[<leaf>=<tags seen, sorted>;..] r1:[..] ## ok | fail isolation ..`
+//! Oracle: for each request, HTML and log of the concurrent run == those of the same request replayed ALONE
+//! with the same relative order of its own actions.
 use futures::channel::oneshot;
 use futures::{Stream, StreamExt};
-use hx_common::sched;
+use hx_common::*;
+use hydration_context::{SharedContext, SsrSharedContext};
+use leptos::context::Provider;
 use leptos::prelude::*;
+use std::collections::{BTreeMap, BTreeSet, HashMap};
+use std::future::Future;
+use std::panic::{catch_unwind, AssertUnwindSafe};
 use std::pin::Pin;
 use std::sync::{Arc, Mutex};
 use std::task::{Context, Poll};
 
-#[derive(Clone, Debug)]
-struct Tag(u32);
-
 type PinnedStream<T> = Pin<Box<dyn Stream<Item = T> + Send>>;
+type PinnedFuture<T> = Pin<Box<dyn Future<Output = T> + Send>>;
+type BoxedFnOnce<T> = Box<dyn FnOnce() -> T + Send>;
 
-fn report(leaf: u32) -> String {
-    let t = use_context::<Tag>().map(|t| t.0 as i64).unwrap_or(-1);
-    format!("[L{leaf}:t{t}]")
+// ------------------------------------------------------------------ programs
+
+#[derive(Clone, Debug, PartialEq)]
+enum P {
+    L(u32),
+    E(u32),
+    C(u32),
+    V(u32, Box<P>),
+    S(u32, u32, u32, Box<P>),
+    U(Box<P>),
+    R(u32, u32, u32),
+    F(u32, u32),
+    Q(Vec<P>),
 }
 
-fn main() {
-    sched::install();
-    let mut streams: Vec<PinnedStream<String>> = vec![];
-    let mut owners = vec![];
-    let mut txs = vec![];
-    for r in 0..2u32 {
-        let (tx, rx) = oneshot::channel::<()>();
-        txs.push(tx);
-        let rx = Arc::new(Mutex::new(Some(rx)));
-        let app = move || {
-            let rx = rx.lock().unwrap().take().unwrap();
-            view! {
-                <p>{move || report(1)}</p>
-                {Suspend::new(async move {
-                    let a = report(2);
+struct Parser<'a> {
+    s: &'a [u8],
+    i: usize,
+}
+impl<'a> Parser<'a> {
+    fn num(&mut self) -> Option<u32> {
+        let st = self.i;
+        while self.i < self.s.len() && self.s[self.i].is_ascii_digit() {
+            self.i += 1;
+        }
+        if st == self.i || self.i - st > 6 {
+            return None;
+        }
+        std::str::from_utf8(&self.s[st..self.i]).ok()?.parse().ok()
+    }
+    fn eat(&mut self, c: u8) -> Option<()> {
+        if self.s.get(self.i) == Some(&c) {
+            self.i += 1;
+            Some(())
+        } else {
+            None
+        }
+    }
+    fn prog(&mut self, depth: u32) -> Option<P> {
+        if depth > 12 {
+            return None;
+        }
+        let c = *self.s.get(self.i)?;
+        self.i += 1;
+        Some(match c {
+            b'L' => P::L(self.num()?),
+            b'E' => P::E(self.num()?),
+            b'C' => P::C(self.num()?),
+            b'V' => {
+                let k = self.num()?;
+                self.eat(b'(')?;
+                let p = self.prog(depth + 1)?;
+                self.eat(b')')?;
+                P::V(k, Box::new(p))
+            }
+            b'S' => {
+                let g = self.num()?;
+                self.eat(b'.')?;
+                let a = self.num()?;
+                self.eat(b'.')?;
+                let b = self.num()?;
+                self.eat(b'(')?;
+                let p = self.prog(depth + 1)?;
+                self.eat(b')')?;
+                P::S(g, a, b, Box::new(p))
+            }
+            b'U' => {
+                self.eat(b'(')?;
+                let p = self.prog(depth + 1)?;
+                self.eat(b')')?;
+                P::U(Box::new(p))
+            }
+            b'R' => {
+                let g = self.num()?;
+                self.eat(b'.')?;
+                let a = self.num()?;
+                self.eat(b'.')?;
+                let b = self.num()?;
+                P::R(g, a, b)
+            }
+            b'F' => {
+                let n = self.num()?;
+                self.eat(b'.')?;
+                let a = self.num()?;
+                P::F(n, a)
+            }
+            b'Q' => {
+                self.eat(b'(')?;
+                let mut v = vec![self.prog(depth + 1)?];
+                while self.eat(b',').is_some() {
+                    v.push(self.prog(depth + 1)?);
+                }
+                self.eat(b')')?;
+                P::Q(v)
+            }
+            _ => return None,
+        })
+    }
+}
+
+fn parse_prog(s: &str) -> Option<P> {
+    let mut p = Parser { s: s.as_bytes(), i: 0 };
+    let r = p.prog(0)?;
+    if p.i == s.len() {
+        Some(r)
+    } else {
+        None
+    }
+}
+
+fn show_prog(p: &P) -> String {
+    match p {
+        P::L(a) => format!("L{a}"),
+        P::E(a) => format!("E{a}"),
+        P::C(a) => format!("C{a}"),
+        P::V(k, c) => format!("V{k}({})", show_prog(c)),
+        P::S(g, a, b, c) => format!("S{g}.{a}.{b}({})", show_prog(c)),
+        P::U(c) => format!("U({})", show_prog(c)),
+        P::R(g, a, b) => format!("R{g}.{a}.{b}"),
+        P::F(n, a) => format!("F{n}.{a}"),
+        P::Q(v) => format!("Q({})", v.iter().map(show_prog).collect::<Vec<_>>().join(",")),
+    }
+}
+
+fn gates_of(p: &P, out: &mut Vec<u32>) {
+    match p {
+        P::S(g, _, _, c) => {
+            out.push(*g);
+            gates_of(c, out)
+        }
+        P::R(g, _, _) => out.push(*g),
+        P::V(_, c) | P::U(c) => gates_of(c, out),
+        P::Q(v) => v.iter().for_each(|c| gates_of(c, out)),
+        _ => {}
+    }
+}
+
+// ------------------------------------------------------------------ what leaves report
+
+#[derive(Clone, Debug, PartialEq)]
+struct Tag {
+    req: u32,
+    scope: u32,
+}
+
+#[derive(Clone, Debug, PartialEq)]
+struct Rec {
+    me: u32,
+    leaf: u32,
+    tag: Option<(u32, u32)>,
+    sig: Option<u32>,
+    did: Option<usize>,
+    cleanup: bool,
+}
+
+static LOG: Mutex<Vec<Rec>> = Mutex::new(Vec::new());
+
+#[derive(Clone)]
+struct Env {
+    me: u32,
+    sig: RwSignal<u32>,
+    gates: Arc<Mutex<HashMap<u32, oneshot::Receiver<()>>>>,
+}
+
+fn report(env: &Env, leaf: u32, take_id: bool) -> String {
+    let tag = use_context::<Tag>().map(|t| (t.req, t.scope));
+    let sig = env.sig.try_get_untracked();
+    let did = if take_id { Owner::current_shared_context().map(|sc| sc.next_id().into_inner()) } else { None };
+    let rec = Rec { me: env.me, leaf, tag, sig, did, cleanup: false };
+    let s = format!(
+        "[L{}:t{}:s{}:d{}]",
+        leaf,
+        tag.map(|t| format!("{}.{}", t.0, t.1)).unwrap_or("-".into()),
+        sig.map(|v| v.to_string()).unwrap_or("-".into()),
+        did.map(|v| v.to_string()).unwrap_or("-".into())
+    );
+    LOG.lock().unwrap().push(rec);
+    s
+}
+
+fn take_gate(env: &Env, g: u32) -> Option<oneshot::Receiver<()>> {
+    env.gates.lock().unwrap().remove(&g)
+}
+
+// ------------------------------------------------------------------ program -> real leptos view
+
+fn build(p: &P, env: &Env) -> AnyView {
+    match p {
+        P::L(id) => {
+            let (env, id) = (env.clone(), *id);
+            (move || report(&env, id, true)).into_any()
+        }
+        P::E(id) => report(env, *id, true).into_any(),
+        P::C(id) => {
+            let (env, id) = (env.clone(), *id);
+            // a cleanup must not touch the OWNER thread-local: `Owner::unset` drops the root while OWNER is
+            // mutably borrowed, so `use_context` inside a cleanup panics there (with or without a second
+            // request; reported as a side observation, it is not an isolation question).  It reads the
+            // per-request signal (arena item) instead.
+            on_cleanup(move || {
+                let sig = env.sig.try_get_untracked();
+                LOG.lock().unwrap().push(Rec { me: env.me, leaf: id, tag: None, sig, did: None, cleanup: true });
+            });
+            ().into_any()
+        }
+        P::V(k, c) => {
+            let (env2, c) = (env.clone(), (**c).clone());
+            let value = Tag { req: env.me, scope: *k };
+            view! { <Provider value=value>{build(&c, &env2)}</Provider> }.into_any()
+        }
+        P::S(g, pre, post, c) => {
+            let (env, g, pre, post, c) = (env.clone(), *g, *pre, *post, (**c).clone());
+            Suspend::new(async move {
+                let a = report(&env, pre, true);
+                if let Some(rx) = take_gate(&env, g) {
                     let _ = rx.await;
-                    let b = report(3);
-                    view! { <b>{a}{b}{move || report(4)}</b> }
-                })}
+                }
+                let b = report(&env, post, true);
+                let child = build(&c, &env);
+                view! { <b>{a}{b}{child}</b> }
+            })
+            .into_any()
+        }
+        P::U(c) => {
+            let (env2, c) = (env.clone(), (**c).clone());
+            view! { <Suspense fallback=|| "F">{build(&c, &env2)}</Suspense> }.into_any()
+        }
+        P::R(g, fetch, read) => {
+            let (envf, g, fetch, read) = (env.clone(), *g, *fetch, *read);
+            let res = Resource::new(
+                || (),
+                move |_| {
+                    let env = envf.clone();
+                    async move {
+                        if let Some(rx) = take_gate(&env, g) {
+                            let _ = rx.await;
+                        }
+                        report(&env, fetch, true)
+                    }
+                },
+            );
+            let env = env.clone();
+            Suspend::new(async move {
+                let v = res.await;
+                let s = report(&env, read, true);
+                view! { <i>{v}{s}</i> }
+            })
+            .into_any()
+        }
+        P::F(n, id) => {
+            let (env, n, id) = (env.clone(), *n, *id);
+            view! {
+                <For each=move || 0..n key=|i| *i children=move |_i| report(&env, id, true) />
             }
+            .into_any()
+        }
+        P::Q(v) => v.iter().map(|c| build(c, env)).collect::<Vec<AnyView>>().into_any(),
+    }
+}
+
+// ------------------------------------------------------------------ build_response
+
+fn stream_builder(
+    app: AnyView,
+    chunks: BoxedFnOnce<PinnedStream<String>>,
+    ooo: bool,
+) -> PinnedFuture<PinnedStream<String>> {
+    // what the axum/actix integrations pass to build_response (integrations/axum/src/lib.rs
+    // render_app_to_stream_with_context_and_replace_blocks), the flag selecting the stream kind
+    Box::pin(async move {
+        let app = if ooo { app.to_html_stream_out_of_order() } else { app.to_html_stream_in_order() };
+        Box::pin(app.chain(chunks())) as PinnedStream<String>
+    })
+}
+
+#[cfg(feature = "sandbox")]
+use leptos_integration_utils::build_response;
+
+/// integrations/utils/src/lib.rs `build_response`, reproduced for the configuration without
+/// `sandboxed-arenas` (`Sandboxed` does not exist there; everything else line by line; no nonce feature here).
+#[cfg(not(feature = "sandbox"))]
+fn build_response<IV>(
+    app_fn: impl FnOnce() -> IV + Send + 'static,
+    additional_context: impl FnOnce() + Send + 'static,
+    stream_builder: fn(IV, BoxedFnOnce<PinnedStream<String>>, bool) -> PinnedFuture<PinnedStream<String>>,
+    is_islands_router_navigation: bool,
+) -> (Owner, PinnedFuture<PinnedStream<String>>)
+where
+    IV: IntoView + 'static,
+{
+    let shared_context = Arc::new(SsrSharedContext::new()) as Arc<dyn SharedContext + Send + Sync>;
+    let owner = Owner::new_root(Some(Arc::clone(&shared_context)));
+    let stream = Box::pin({
+        let owner = owner.clone();
+        async move {
+            let stream = owner.with(|| {
+                additional_context();
+                let app = app_fn();
+                let nonce = String::new();
+                let shared_context = Owner::current_shared_context().unwrap();
+                let chunks = Box::new({
+                    let shared_context = shared_context.clone();
+                    move || {
+                        Box::pin(
+                            shared_context
+                                .pending_data()
+                                .unwrap()
+                                .map(move |chunk| format!("<script{nonce}>{chunk}</script>")),
+                        ) as Pin<Box<dyn Stream<Item = String> + Send>>
+                    }
+                });
+                stream_builder(app, chunks, is_islands_router_navigation)
+            });
+            stream.await
+        }
+    });
+    (owner, stream)
+}
+
+#[allow(dead_code)]
+fn _keep_types(_: Option<Arc<SsrSharedContext>>, _: Option<Arc<dyn SharedContext>>) {}
+
+// ------------------------------------------------------------------ one run (concurrent or solo)
+
+#[derive(Clone, Debug, PartialEq)]
+enum Act {
+    Start,
+    Fire(u32),
+    Ps,
+    Poll(usize), // local index among this request's tasks
+    Finish,
+}
+
+struct Req {
+    ooo: bool,
+    prog: P,
+    gates: Vec<u32>,
+    started: bool,
+    dropped: bool,
+    stream: Option<PinnedStream<String>>,
+    stream_done: bool,
+    html: String,
+    txs: HashMap<u32, oneshot::Sender<()>>,
+    fired: BTreeSet<u32>,
+    acts: Vec<Act>,
+    tasks: Vec<usize>, // sched ids of the tasks attributed to this request, in spawn order
+}
+
+impl Req {
+    fn new(ooo: bool, prog: P) -> Self {
+        let mut gates = vec![];
+        gates_of(&prog, &mut gates);
+        Req {
+            ooo,
+            prog,
+            gates,
+            started: false,
+            dropped: false,
+            stream: None,
+            stream_done: false,
+            html: String::new(),
+            txs: HashMap::new(),
+            fired: BTreeSet::new(),
+            acts: vec![],
+            tasks: vec![],
+        }
+    }
+}
+
+struct World {
+    reqs: Vec<Req>,
+    known_tasks: usize,
+    panicked: bool,
+}
+
+impl World {
+    fn new() -> Self {
+        World { reqs: vec![], known_tasks: 0, panicked: false }
+    }
+
+    /// tasks spawned since the last call belong to request r
+    fn attribute(&mut self, r: usize) {
+        let n = sched::task_count();
+        for id in self.known_tasks..n {
+            self.reqs[r].tasks.push(id);
+        }
+        self.known_tasks = n;
+    }
+
+    fn guarded(&mut self, r: usize, f: impl FnOnce(&mut World)) {
+        if catch_unwind(AssertUnwindSafe(|| f(self))).is_err() {
+            self.panicked = true;
+        }
+        self.attribute(r);
+    }
+
+    fn start(&mut self, r: usize) {
+        self.guarded(r, |w| {
+            let q = &mut w.reqs[r];
+            let me = r as u32;
+            let mut rxs = HashMap::new();
+            for g in q.gates.clone() {
+                let (tx, rx) = oneshot::channel::<()>();
+                q.txs.insert(g, tx);
+                rxs.insert(g, rx);
+            }
+            let gates = Arc::new(Mutex::new(rxs));
+            let prog = q.prog.clone();
+            let app_fn = move || {
+                let sig = RwSignal::new(10 + me);
+                let env = Env { me, sig, gates };
+                build(&prog, &env)
+            };
+            let (owner, mut fut) = build_response(
+                app_fn,
+                move || provide_context(Tag { req: me, scope: 0 }),
+                stream_builder,
+                q.ooo,
+            );
+            let w2 = sched::noop_waker();
+            let mut cx = Context::from_waker(&w2);
+            let stream = match fut.as_mut().poll(&mut cx) {
+                Poll::Ready(s) => s,
+                Poll::Pending => panic!("build_response future pending"),
+            };
+            // integrations/utils `ExtendResponse::from_app`, reproduced: the response body is the stream
+            // followed by one element that drops the root owner, all inside `Sandboxed` (from_app itself
+            // needs a ServerMetaContextOutput and awaits the first chunk; not linked here)
+            let body = stream.chain(futures::stream::once(async move {
+                owner.unset();
+                String::new()
+            }));
+            #[cfg(feature = "sandbox")]
+            let body = leptos::reactive::owner::Sandboxed::new(body);
+            q.stream = Some(Box::pin(body));
+            q.started = true;
+        });
+        self.reqs[r].acts.push(Act::Start);
+    }
+
+    fn fire(&mut self, r: usize, g: u32) {
+        self.guarded(r, |w| {
+            let q = &mut w.reqs[r];
+            q.fired.insert(g);
+            if let Some(tx) = q.txs.remove(&g) {
+                let _ = tx.send(());
+            }
+        });
+        self.reqs[r].acts.push(Act::Fire(g));
+    }
+
+    fn ps_inner(&mut self, r: usize) {
+        self.guarded(r, |w| {
+            let q = &mut w.reqs[r];
+            if q.stream_done {
+                return;
+            }
+            let Some(mut s) = q.stream.take() else { return };
+            let w2 = sched::noop_waker();
+            let mut cx = Context::from_waker(&w2);
+            let mut pend = 0;
+            let mut done = false;
+            for _ in 0..10_000 {
+                match s.as_mut().poll_next(&mut cx) {
+                    Poll::Ready(Some(c)) => {
+                        pend = 0;
+                        q.html.push_str(&c)
+                    }
+                    Poll::Ready(None) => {
+                        done = true;
+                        break;
+                    }
+                    Poll::Pending => {
+                        pend += 1;
+                        if pend >= 8 {
+                            break;
+                        }
+                    }
+                }
+            }
+            q.stream_done = done;
+            q.stream = Some(s);
+        });
+    }
+
+    fn ps(&mut self, r: usize) {
+        self.ps_inner(r);
+        self.reqs[r].acts.push(Act::Ps);
+    }
+
+    fn poll_task(&mut self, r: usize, k: usize) {
+        self.guarded(r, |w| {
+            if let Some(&id) = w.reqs[r].tasks.get(k) {
+                sched::poll(id);
+            }
+        });
+        self.reqs[r].acts.push(Act::Poll(k));
+    }
+
+    fn owner_of(&self, id: usize) -> Option<(usize, usize)> {
+        for (r, q) in self.reqs.iter().enumerate() {
+            if let Some(k) = q.tasks.iter().position(|&t| t == id) {
+                return Some((r, k));
+            }
+        }
+        None
+    }
+
+    fn poll_nth(&mut self, i: usize) {
+        let rd = sched::ready();
+        if rd.is_empty() {
+            return;
+        }
+        let id = rd[i % rd.len()];
+        if let Some((r, k)) = self.owner_of(id) {
+            self.poll_task(r, k);
+        }
+    }
+
+    /// drive r alone to completion, then drop it the way `from_app` does (`owner.unset()` after the stream)
+    fn finish(&mut self, r: usize) {
+        for g in self.reqs[r].gates.clone() {
+            if !self.reqs[r].fired.contains(&g) {
+                self.guarded(r, |w| {
+                    let q = &mut w.reqs[r];
+                    q.fired.insert(g);
+                    if let Some(tx) = q.txs.remove(&g) {
+                        let _ = tx.send(());
+                    }
+                });
+            }
+        }
+        for _ in 0..64 {
+            for _ in 0..10_000 {
+                let rd = sched::ready();
+                let Some(&id) = rd.iter().find(|id| self.reqs[r].tasks.contains(id)) else { break };
+                self.guarded(r, |_| {
+                    sched::poll(id);
+                });
+            }
+            self.ps_inner(r);
+            if self.reqs[r].stream_done {
+                break;
+            }
+        }
+        self.guarded(r, |w| {
+            let q = &mut w.reqs[r];
+            q.stream = None;
+            q.txs.clear();
+        });
+        // tasks woken by the disposal (channel closed) finish here
+        for _ in 0..10_000 {
+            let rd = sched::ready();
+            let Some(&id) = rd.iter().find(|id| self.reqs[r].tasks.contains(id)) else { break };
+            self.guarded(r, |_| {
+                sched::poll(id);
+            });
+        }
+        self.reqs[r].dropped = true;
+        self.reqs[r].acts.push(Act::Finish);
+    }
+}
+
+fn solo(ooo: bool, prog: &P, acts: &[Act]) -> (String, Vec<Rec>, bool, bool) {
+    sched::reset();
+    LOG.lock().unwrap().clear();
+    let mut w = World::new();
+    w.reqs.push(Req::new(ooo, prog.clone()));
+    for a in acts {
+        match a {
+            Act::Start => w.start(0),
+            Act::Fire(g) => w.fire(0, *g),
+            Act::Ps => w.ps(0),
+            Act::Poll(k) => w.poll_task(0, *k),
+            Act::Finish => w.finish(0),
+        }
+    }
+    let log = std::mem::take(&mut *LOG.lock().unwrap());
+    let done = w.reqs[0].stream_done;
+    let html = std::mem::take(&mut w.reqs[0].html);
+    let p = w.panicked;
+    drop(w);
+    sched::reset();
+    (html, log, done, p)
+}
+
+fn show_tag(t: &Option<(u32, u32)>) -> String {
+    t.map(|t| format!("{}.{}", t.0, t.1)).unwrap_or("-".into())
+}
+
+fn observation(r: u32, log: &[Rec]) -> String {
+    let mut m: BTreeMap<u32, BTreeSet<String>> = BTreeMap::new();
+    for x in log.iter().filter(|x| x.me == r) {
+        let seen = if x.cleanup {
+            // a cleanup leaf reports whose arena it saw (the per-request signal holds 10 + request)
+            x.sig.map(|v| format!("a{}", v as i64 - 10)).unwrap_or("a-".into())
+        } else {
+            show_tag(&x.tag)
         };
-        let (owner, fut) = leptos_integration_utils::build_response(
-            app,
-            move || provide_context(Tag(r)),
-            |app, chunks, _| {
-                Box::pin(async move {
-                    Box::pin(app.to_html_stream_in_order().chain(chunks())) as PinnedStream<String>
-                })
-            },
-            false,
-        );
-        let mut fut = fut;
-        let w = sched::noop_waker();
-        let mut cx = Context::from_waker(&w);
-        match fut.as_mut().poll(&mut cx) {
-            Poll::Ready(s) => streams.push(s),
-            Poll::Pending => panic!("pending"),
+        m.entry(x.leaf).or_default().insert(seen);
+    }
+    format!(
+        "r{}:[{}]",
+        r,
+        m.iter()
+            .map(|(l, ts)| format!("{}={}", l, ts.iter().cloned().collect::<Vec<_>>().join(",")))
+            .collect::<Vec<_>>()
+            .join(";")
+    )
+}
+
+// ------------------------------------------------------------------ op interpreter
+
+struct Case {
+    w: World,
+    ended: bool,
+}
+
+fn fresh_case() -> Case {
+    sched::reset();
+    LOG.lock().unwrap().clear();
+    Case { w: World::new(), ended: false }
+}
+
+fn prog_tags(p: &P, under_async: bool, out: &mut BTreeSet<&'static str>) {
+    match p {
+        P::L(_) | P::E(_) => {
+            out.insert("plain");
         }
-        owners.push(owner);
+        P::C(_) => {
+            out.insert("cleanup");
+        }
+        P::V(_, c) => {
+            out.insert("provider");
+            prog_tags(c, under_async, out)
+        }
+        P::S(_, _, _, c) => {
+            out.insert(if under_async { "suspend-in-suspense" } else { "bare-suspend" });
+            prog_tags(c, under_async, out)
+        }
+        P::U(c) => {
+            out.insert("suspense");
+            prog_tags(c, true, out)
+        }
+        P::R(..) => {
+            out.insert("resource");
+        }
+        P::F(..) => {
+            out.insert("for");
+        }
+        P::Q(v) => v.iter().for_each(|c| prog_tags(c, under_async, out)),
     }
-    println!("tasks {}", sched::task_count());
-    for tx in txs {
-        let _ = tx.send(());
+}
+
+fn op(c: &mut Case, line: &str) -> String {
+    let w: Vec<&str> = line.split_whitespace().collect();
+    let idx = |s: &str, c: &Case| -> Option<usize> {
+        let r: usize = s.parse().ok()?;
+        if r < c.w.reqs.len() {
+            Some(r)
+        } else {
+            None
+        }
+    };
+    if c.ended {
+        return "bad-op".into();
     }
-    let w = sched::noop_waker();
-    let mut cx = Context::from_waker(&w);
-    for (i, s) in streams.iter_mut().enumerate() {
-        let mut out = String::new();
-        for _ in 0..20 {
-            sched::run_until_idle(100);
-            match s.as_mut().poll_next(&mut cx) {
-                Poll::Ready(Some(c)) => out.push_str(&c),
-                Poll::Ready(None) => break,
-                Poll::Pending => {}
+    match w.as_slice() {
+        ["req", r, mode, p] => {
+            let Ok(r) = r.parse::<usize>() else { return "bad-op".into() };
+            if r != c.w.reqs.len() || r > 2 || !(*mode == "io" || *mode == "ooo") {
+                return "bad-op".into();
             }
+            let Some(p) = parse_prog(p) else { return "bad-op".into() };
+            c.w.reqs.push(Req::new(*mode == "ooo", p));
+            "ok".into()
         }
-        println!("req {i}: {out}");
+        ["start", r] => {
+            let Some(r) = idx(r, c) else { return "bad-op".into() };
+            if c.w.reqs[r].started {
+                return "bad-op".into();
+            }
+            c.w.start(r);
+            "ok".into()
+        }
+        ["fire", r, g] => {
+            let Some(r) = idx(r, c) else { return "bad-op".into() };
+            let Ok(g) = g.parse::<u32>() else { return "bad-op".into() };
+            let q = &c.w.reqs[r];
+            if !q.started || q.dropped || !q.gates.contains(&g) || q.fired.contains(&g) {
+                return "bad-op".into();
+            }
+            c.w.fire(r, g);
+            "ok".into()
+        }
+        ["ps", r] => {
+            let Some(r) = idx(r, c) else { return "bad-op".into() };
+            if !c.w.reqs[r].started || c.w.reqs[r].dropped {
+                return "bad-op".into();
+            }
+            c.w.ps(r);
+            "ok".into()
+        }
+        ["poll", i] => {
+            let Ok(i) = i.parse::<usize>() else { return "bad-op".into() };
+            c.w.poll_nth(i);
+            "ok".into()
+        }
+        ["drop", r] => {
+            let Some(r) = idx(r, c) else { return "bad-op".into() };
+            if !c.w.reqs[r].started || c.w.reqs[r].dropped {
+                return "bad-op".into();
+            }
+            c.w.finish(r);
+            "ok".into()
+        }
+        ["end"] => {
+            for r in 0..c.w.reqs.len() {
+                if c.w.reqs[r].started && !c.w.reqs[r].dropped {
+                    c.w.finish(r);
+                }
+            }
+            c.ended = true;
+            let log = std::mem::take(&mut *LOG.lock().unwrap());
+            let mut obs = vec![];
+            let mut bad = vec![];
+            if c.w.panicked {
+                bad.push("panic".to_string());
+            }
+            let info: Vec<(bool, P, Vec<Act>, String, bool, bool)> = c
+                .w
+                .reqs
+                .iter_mut()
+                .map(|q| (q.ooo, q.prog.clone(), q.acts.clone(), std::mem::take(&mut q.html), q.stream_done, q.started))
+                .collect();
+            c.w.reqs.clear();
+            sched::reset();
+            for (r, (ooo, prog, acts, html, done, started)) in info.iter().enumerate() {
+                if !*started {
+                    continue;
+                }
+                obs.push(observation(r as u32, &log));
+                let (shtml, slog, sdone, spanic) = solo(*ooo, prog, acts);
+                let mine: Vec<Rec> = log.iter().filter(|x| x.me == r as u32).cloned().collect();
+                let alone: Vec<Rec> =
+                    slog.into_iter().map(|mut x| { x.me = r as u32; fix_solo(&mut x, r as u32); x }).collect();
+                if std::env::var("C20_DEBUG").is_ok() {
+                    eprintln!("r{r} conc: {html}\nr{r} solo: {shtml}\n conc log {mine:?}\n solo log {alone:?}\n acts {acts:?}");
+                }
+                if !*done {
+                    bad.push(format!("r{r}:incomplete"));
+                }
+                if spanic || !sdone {
+                    bad.push(format!("r{r}:solo-broken"));
+                }
+                if *html != rename_solo(&shtml, r as u32) {
+                    bad.push(format!("r{r}:html"));
+                } else if mine != alone {
+                    bad.push(format!("r{r}:log"));
+                }
+            }
+            let v = if bad.is_empty() { "ok".to_string() } else { format!("fail isolation {}", bad.join(",")) };
+            format!("{} ## {}", obs.join(" "), v)
+        }
+        _ => "bad-op".into(),
     }
+}
+
+/// the solo replay runs the program as request index 0 of its own world but with the SAME tag number:
+/// nothing to rename (kept as functions so the convention is in one place)
+fn rename_solo(html: &str, _r: u32) -> String {
+    html.to_string()
+}
+fn fix_solo(_x: &mut Rec, _r: u32) {}
+
+fn main() {
+    #[cfg(feature = "sandbox")]
+    if std::env::args().next().map(|a| a.ends_with("c20g")).unwrap_or(false) {
+        eprintln!("c20g was built with the `sandbox` feature; rebuild with --no-default-features --bin c20g");
+        std::process::exit(3);
+    }
+    if std::env::var("C20_DEBUG").is_err() {
+        quiet_panics();
+    }
+    sched::install();
+    match parse_cli() {
+        Cmd::Gen { seed, n, ops, tier } => gen(seed, n, &ops, &tier),
+        Cmd::Run { ops, out } => {
+            // pre-scan: the tags of a case come from its `req` lines, but must be printed on its `case` line
+            let text = std::fs::read_to_string(&ops).unwrap();
+            let mut case_tags: Vec<BTreeSet<&'static str>> = vec![];
+            for line in text.lines() {
+                let w: Vec<&str> = line.split_whitespace().collect();
+                match w.as_slice() {
+                    ["case", ..] => case_tags.push(BTreeSet::new()),
+                    ["req", _, mode, p] => {
+                        if let (Some(t), Some(p)) = (case_tags.last_mut(), parse_prog(p)) {
+                            prog_tags(&p, false, t);
+                            t.insert(if *mode == "ooo" { "ooo" } else { "in-order" });
+                        }
+                    }
+                    ["drop", ..] => {
+                        if let Some(t) = case_tags.last_mut() {
+                            t.insert("early-drop");
+                        }
+                    }
+                    _ => {}
+                }
+            }
+            let mut c = fresh_case();
+            let mut k = 0usize;
+            run_ops(&ops, &out, |line| {
+                if let Some(name) = line.strip_prefix("case ") {
+                    c = fresh_case();
+                    let tags = case_tags.get(k).map(|t| t.iter().cloned().collect::<Vec<_>>().join(",")).unwrap_or_default();
+                    k += 1;
+                    return if tags.is_empty() { format!("case {name}") } else { format!("case {name} tags={tags}") };
+                }
+                op(&mut c, line)
+            })
+            .unwrap();
+        }
+    }
+}
+
+fn gen(_seed: u64, _n: usize, ops: &str, _tier: &str) {
+    std::fs::write(ops, "").unwrap();
 }
